@@ -90,7 +90,7 @@ theorem gen_dhp_parse_empty (grow : Nat → Nat → Nat) (fuel : Nat) (s : Gen.d
   have hs : Slice.slice blk.Literals 0 (0 : Int) = Res.ok { arr := blk.Literals.arr, len := 0 } := by
     unfold Slice.slice
     simp [Slice.cap]
-  unfold doubleHashParser_Parse
+  unfold doubleHashParser_Parse doubleHashParser_Parse_nilable; simp only [Bool.false_eq_true]
   -- shape-independent in the spelling of the clamp: every spelling of `n` is rewritten to `blockND s`, then to 0
   simp only [gen_min, Int.min_def, gt_iff_lt, ge_iff_le, Int.not_lt, Int.not_le,
     blockND_lt, blockND_le, blockND_lt', blockND_le']
@@ -195,7 +195,7 @@ theorem gen_dhp_parse (grow : Nat → Nat → Nat) (fuel : Nat) (s : Gen.doubleH
     unfold Slice.slice
     simp [Slice.cap]
   generalize hG : doubleHashParser_Parse grow fuel s blk flags = G
-  unfold doubleHashParser_Parse at hG
+  unfold doubleHashParser_Parse doubleHashParser_Parse_nilable at hG; simp only [Bool.false_eq_true] at hG
   simp only [if_false] at hG
   simp only [gen_min, Int.min_def, gt_iff_lt, ge_iff_le, Int.not_lt, Int.not_le,
     blockND_lt, blockND_le, blockND_lt', blockND_le', hnG] at hG
